@@ -21,6 +21,8 @@ Functions useful from a scratch script (after `import bootstrap; bootstrap.insta
   surface_request(source)              -> S-expression statement list of the protocol
   hs_source(source)                    -> 'safe' | 'chain' | 'sibling'   (Python copy of the Lean predicate)
   run_real_only(n, seed, profile)      -> summary dict (no Lean at all)
+  gen_order_program(rng)               -> typed multi-function source for the order-edge phase (C05)
+  order_eval(source)                   -> per track_hugr_side_effects context: recorded links, oracle failures, model request
 """
 from __future__ import annotations
 
@@ -67,22 +69,34 @@ UNMODELLED = [
     "tuples, structs, arrays, floats, nested functions, comprehensions, with-blocks, comptime expressions",
     "chained comparisons with more than 3 operands; a lifted construct or a double negation as the middle operand of a chained "
     "comparison (model answers `err unsupported`, oracle still runs)",
-    "compile_bb / block wiring and HUGR execution",
+    "compile_bb / block wiring (row_agreement, return_vars_order of compiler/cfg_compiler.py) and HUGR execution",
+    "64-bit wrap-around (values are unbounded ints); the iterator protocol is executed with the semantics of range (C18)",
 ]
 MANIFEST = {
-    "level_text": "Lean theorems over a hand-written model of cfg/builder.py (statement and expression builders, branch builder, "
-    "for-template, reachability and pruning): for every program of the hoist-safe fragment and every argument store the CFG "
-    "semantics of the built CFG yields the same return value and call trace as the Python big-step semantics of the source; "
-    "structural invariants of the built CFG. The model is tied to /repo on every run: the real CFGBuilder is driven on generated "
-    "programs, its output is diffed block by block against the model's, the real CFG is interpreted and compared with CPython "
-    "running the same source, and the model's two semantics are compared with CPython and with the real-CFG interpretation.",
+    "level_text": "Lean theorems (all programs of the fragment x all argument stores x all environments of external functions, no "
+    "size or iteration bound) over a hand-written model of cfg/builder.py (CFGBuilder statements incl. if/while/the for template/"
+    "break/continue/return/unreachable tails, ExprBuilder lifting of IfExp, and/or, chained comparison, walrus into temporaries, "
+    "BranchBuilder, constant conditions with dummy edges, update_reachable, implicit return, pruning): for every HOIST-SAFE program "
+    "the built CFG, executed block by block (successor 1 on a true predicate), halts in the exit block with the same return value, "
+    "the same trace of external calls and the same user-variable values as Python's big-step semantics of the source "
+    "(builder_correct_partial, by induction on the big-step derivation; termination-insensitive); every block has at most two "
+    "successors and two only with a branch predicate; break/continue target the innermost loop; after pruning no real edge leads "
+    "from unreachable into reachable code and dummy edges only reach unreachable blocks; the reachable flags are exactly graph "
+    "reachability from the entry; block wiring of compiler/cfg_compiler.py (compile_bb / sort_vars / choose_vars_for_tuple_sum / "
+    "insert_return_vars): along every edge the ordered places a block delivers equal the ordered places the successor binds "
+    "(row_agreement_jump / _branch, return_vars_order; no two same-typed variables can be swapped). The model is tied to /repo on every run: "
+    "the real CFGBuilder is driven on generated programs, its output is diffed block by block (statements, branch_pred, ordered "
+    "successors, dummy successors, reachability, errors) against the model's, the real CFG is interpreted and compared with CPython "
+    "running the same source, and the model's two semantics are compared with CPython and with the real-CFG interpretation; "
+    "typed programs are lowered by the real compiler and compile_bb's actual input/output place order is recovered and compared "
+    "with the wiring model and, edge by edge, with the successor's inputs.",
     "level_note": "Trusted: Lean kernel + propext/Classical.choice/Quot.sound; the reading of a CFG (exec of block statements, "
     "successors[1] on a true predicate); correspondence is sampling. Outside the hoist-safe fragment the property is false of "
     "the code (D9, known findings).",
     "technique": "Lean 4 proof over a hand-written builder model + differential correspondence (structure and semantics) with "
     "cfg/builder.py and CPython",
     "design_ref": "DESIGN.md §5 C03",
-    "ready": False,
+    "ready": True,
 }
 
 KEY_CHAIN = "class:chained-compare-middle-twice"
@@ -633,7 +647,8 @@ def _sib(ops):
         if _lifts(cj):
             w = _writes(cj)
             for ci in ops[:j]:
-                if _res_calls(ci) or (_res_reads(ci) & w):
+                # a call left in an earlier operand only matters if the lifting operand makes a call itself
+                if (_res_calls(ci) and _has_call(cj)) or (_res_reads(ci) & w):
                     return {"sibling"}
     return set()
 
@@ -1350,6 +1365,8 @@ def load_corpus(profile):
         for fn in sorted(os.listdir(d)):
             if fn.endswith(".json"):
                 for c in json.load(open(os.path.join(d, fn))):
+                    if "rn" not in c:  # wiring.json / target_exprs.json / call_counts.json: typed programs of the T-obj phases
+                        continue
                     out.append(("corpus:" + fn, c["source"], int(c["rn"]), c["inputs"]))
     return out
 
@@ -1400,6 +1417,1286 @@ def tie(ctx, profile=Profile):
     ctx.extra["python_vs_lean_hs_disagreements"] = st["hs_disagree"]
     ctx.extra["outside_model_fraction"] = round(st["outside_model"] / max(1, len(results)), 4)
     ctx.extra["cpython_timeouts"] = sum(1 for r in results for run in r["runs"] if run["py"].kind == "nofuel")
+    if profile.pid == "C03":
+        tie_wiring(ctx)
+        tie_probes(ctx)
+
+
+# ============================================================================ wiring (compile_bb): second phase of C03's tie
+
+WIRE_PRELUDE = (
+    "from guppylang import guppy\n"
+    "from guppylang.std.builtins import *\n"
+    "from guppylang.std.quantum import qubit, h, x, cx, measure, discard\n"
+)
+
+
+class WireRecorder:
+    """Records what cfg_compiler.compile_bb really does while the real compiler lowers a function.  Nothing in /repo is
+    touched: module attributes are wrapped inside this process for the duration of the `with` block and restored after.
+
+    per compiled CFG:  {"cfg": CheckedCFG, "bbs": {bb: events}}   events in program order:
+      ("set", place) / ("get", place)   top-level DFContainer.__setitem__ / __getitem__
+      ("stmts",)                        StmtCompiler.compile_stmts entered
+      ("tuplesum", rows)                choose_vars_for_tuple_sum(output_vars=rows)
+      ("setout", k)                     Block.set_block_outputs with k output wires besides the branch port
+    """
+
+    def __init__(self):
+        self.cfgs = []
+        self._cfg_stack, self._bb_stack, self._depth, self._undo = [], [], 0, []
+
+    def _log(self, ev):
+        if self._bb_stack:
+            self._bb_stack[-1].append(ev)
+
+    def _patch(self, obj, name, new):
+        old = getattr(obj, name)
+        self._undo.append((obj, name, old))
+        setattr(obj, name, new)
+        return old
+
+    def __enter__(self):
+        import guppylang_internals.compiler.cfg_compiler as cc
+        import guppylang_internals.compiler.core as core
+        import guppylang_internals.compiler.func_compiler as fc
+        import guppylang_internals.compiler.modifier_compiler as mc
+        import guppylang_internals.compiler.stmt_compiler as sc
+        from hugr.build import cfg as hc
+
+        rec = self
+        o_cfg, o_bb, o_choose = cc.compile_cfg, cc.compile_bb, cc.choose_vars_for_tuple_sum
+        o_get, o_set = core.DFContainer.__getitem__, core.DFContainer.__setitem__
+        o_stmts, o_out = sc.StmtCompiler.compile_stmts, hc.Block.set_block_outputs
+
+        def compile_cfg(cfg, *a, **kw):
+            r = {"cfg": cfg, "bbs": {}}
+            rec._cfg_stack.append(r)
+            try:
+                return o_cfg(cfg, *a, **kw)
+            finally:
+                rec._cfg_stack.pop()
+                rec.cfgs.append(r)
+
+        def compile_bb(bb, *a, **kw):
+            evs = []
+            if rec._cfg_stack:
+                rec._cfg_stack[-1]["bbs"][bb] = evs
+            rec._bb_stack.append(evs)
+            try:
+                return o_bb(bb, *a, **kw)
+            finally:
+                rec._bb_stack.pop()
+
+        def choose(unit_sum, output_vars, dfg):
+            rec._log(("tuplesum", [list(r) for r in output_vars]))
+            return o_choose(unit_sum=unit_sum, output_vars=output_vars, dfg=dfg)
+
+        def getitem(self, place):
+            if rec._depth == 0:
+                rec._log(("get", place))
+            rec._depth += 1
+            try:
+                return o_get(self, place)
+            finally:
+                rec._depth -= 1
+
+        def setitem(self, place, port):
+            if rec._depth == 0:
+                rec._log(("set", place))
+            rec._depth += 1
+            try:
+                return o_set(self, place, port)
+            finally:
+                rec._depth -= 1
+
+        def compile_stmts(self, stmts, dfg):
+            rec._log(("stmts",))
+            return o_stmts(self, stmts, dfg)
+
+        def set_block_outputs(self, branching, *other):
+            rec._log(("setout", len(other)))
+            return o_out(self, branching, *other)
+
+        self._patch(cc, "compile_cfg", compile_cfg)
+        for mod in (fc, mc):
+            if getattr(mod, "compile_cfg", None) is o_cfg:
+                self._patch(mod, "compile_cfg", compile_cfg)
+        self._patch(cc, "compile_bb", compile_bb)
+        self._patch(cc, "choose_vars_for_tuple_sum", choose)
+        self._patch(core.DFContainer, "__getitem__", getitem)
+        self._patch(core.DFContainer, "__setitem__", setitem)
+        self._patch(sc.StmtCompiler, "compile_stmts", compile_stmts)
+        self._patch(hc.Block, "set_block_outputs", set_block_outputs)
+        return self
+
+    def __exit__(self, *exc):
+        for obj, name, old in reversed(self._undo):
+            setattr(obj, name, old)
+        self._undo = []
+        return False
+
+
+def _place(p):
+    return (str(p), bool(p.ty.droppable))
+
+
+def wire_reconstruct(events):
+    """events of one compile_bb call -> {"inputs", "outputs", "variants" (None = no TupleSum)} or {"ambiguous": why}"""
+    try:
+        k_stmts = next(i for i, e in enumerate(events) if e[0] == "stmts")
+    except StopIteration:
+        return {"ambiguous": "no compile_stmts event"}
+    head = events[:k_stmts]
+    if any(e[0] != "set" for e in head):
+        return {"ambiguous": "non-setitem event before the statements"}
+    inputs = [_place(e[1]) for e in head]
+    outs = [i for i, e in enumerate(events) if e[0] == "setout"]
+    if len(outs) != 1 or outs[0] != len(events) - 1:
+        return {"ambiguous": f"{len(outs)} set_block_outputs events / not last"}
+    k = events[-1][1]
+    tail = events[len(events) - 1 - k:len(events) - 1]
+    if len(tail) != k or any(e[0] != "get" for e in tail):
+        return {"ambiguous": "output wires are not the last reads"}
+    ts = [e for e in events if e[0] == "tuplesum"]
+    if len(ts) > 1:
+        return {"ambiguous": "several TupleSums"}
+    return {"inputs": inputs, "outputs": [_place(e[1]) for e in tail],
+            "variants": [[_place(p) for p in row] for row in ts[0][1]] if ts else None}
+
+
+def wire_lower(source: str):
+    """check + lower a typed program with the real compiler, recording compile_bb.
+    -> ("ok", [cfg records]) | ("rejected", error class) | ("crash", exception class)"""
+    import feed
+
+    try:
+        m = feed.load(source, WIRE_PRELUDE)
+    except Exception as e:  # noqa: BLE001
+        return "rejected", "load:" + type(e).__name__
+    try:
+        kind, exc = feed.check_outcome(m.main)
+        if kind != "ok":
+            return ("rejected" if kind == "user" else "crash"), feed.err_class(exc)
+        with WireRecorder() as rec:
+            try:
+                feed.lower(m.main)
+            except Exception as e:  # noqa: BLE001
+                return "crash", "lower:" + type(e).__name__ + ":" + str(e)[:200]
+        return "ok", rec.cfgs
+    finally:
+        feed.unload(m)
+
+
+def _sx_places(ps):
+    return " ".join(f"(p {n} {int(d)})" for n, d in ps)
+
+
+def wire_eval(source: str) -> dict:
+    """real side + oracle for one typed program: per-bb records, oracle failures, model request lines"""
+    from guppylang_internals.compiler.core import is_return_var
+    from guppylang_internals.tys.ty import type_to_row
+
+    status, data = wire_lower(source)
+    res = {"source": source, "status": status, "detail": None if status == "ok" else data, "bbs": [], "fail": [],
+           "ambiguous": 0, "bad_names": False}
+    if status != "ok":
+        return res
+    for ci, r in enumerate(data):
+        cfg = r["cfg"]
+        exit_bb = cfg.exit_bb
+        recs = {}
+        for bb in cfg.bbs:
+            if bb is exit_bb or bb.is_exit:
+                continue
+            ev = r["bbs"].get(bb)
+            rc = wire_reconstruct(ev) if ev is not None else {"ambiguous": "compile_bb not called"}
+            if "ambiguous" in rc:
+                res["ambiguous"] += 1
+            recs[bb] = rc
+        exit_names = [str(p) for p in exit_bb.sig.input_row]
+        nret = len(type_to_row(cfg.output_ty))
+        tag = f"cfg{ci}:" if len(data) > 1 else ""
+        if exit_names[:nret] != [f"%ret{i}" for i in range(nret)] or any(is_return_var(n) for n in exit_names[nret:]):
+            res["fail"].append((f"{tag}bb{exit_bb.idx}", f"exit row does not start with the return variables in index order: {exit_names}"))
+        for bb in cfg.bbs:
+            rc = recs.get(bb)
+            if rc is None:
+                continue
+            sig_in = [_place(p) for p in bb.sig.input_row]
+            sig_out = [[_place(p) for p in row] for row in bb.sig.output_rows]
+            exits = [int(s is exit_bb) for s in bb.successors]
+            names = [n for n, _ in sig_in] + [n for row in sig_out for n, _ in row]
+            if any(re.search(r"[\s()]", n) for n in names):
+                res["bad_names"] = True
+            entry = {"idx": bb.idx, "tag": tag, "is_entry": bb is cfg.entry_bb, "sig_in": sig_in, "sig_out": sig_out,
+                     "exits": exits, "succ": [s.idx for s in bb.successors], "rec": rc,
+                     "request": f"(wire {int(bb is cfg.entry_bb)} (in {_sx_places(sig_in)}) (outs "
+                     + " ".join(f"(row {_sx_places(row)})" for row in sig_out) + ") (exits " + " ".join(map(str, exits)) + "))"}
+            res["bbs"].append(entry)
+            if "ambiguous" in rc:
+                continue
+            entry["delivered"] = [
+                (rc["variants"][i] if rc["variants"] is not None else []) + rc["outputs"] for i in range(len(bb.successors))
+            ]
+            if rc["variants"] is not None and len(rc["variants"]) != len(bb.successors):
+                res["fail"].append((f"{tag}bb{bb.idx}", f"TupleSum has {len(rc['variants'])} variants for {len(bb.successors)} successors"))
+                continue
+            for row in [rc["inputs"], *entry["delivered"]]:
+                if len({n for n, _ in row}) != len(row):
+                    res["fail"].append((f"{tag}bb{bb.idx}", f"a place occurs twice in a row: {row}"))
+            for i, succ in enumerate(bb.successors):
+                dl = entry["delivered"][i]
+                if succ is exit_bb:
+                    if [n for n, _ in dl] != exit_names:
+                        res["fail"].append((f"{tag}bb{bb.idx}", f"block {bb.idx} delivers {[n for n, _ in dl]} to the exit, "
+                                            f"which expects {exit_names} (function outputs in order)"))
+                else:
+                    want = recs.get(succ)
+                    if want is None or "ambiguous" in want:
+                        continue
+                    if dl != want["inputs"]:
+                        res["fail"].append((f"{tag}bb{bb.idx}", f"block {bb.idx} delivers {dl} along branch {i} but successor "
+                                            f"block {succ.idx} takes its inputs as {want['inputs']}"))
+    return res
+
+
+# ---------------------------------------------------------------- typed generator
+
+
+class WGen:
+    """typed Guppy programs with many same-typed variables whose liveness differs per branch, linear qubits live across
+    branches, early returns of several values, loops with break/continue"""
+
+    INTS = ("zz", "a1", "m", "B", "_x", "x10", "x9", "Aa", "k2")
+    BOOLS = ("c", "Zb", "_f", "b0", "y1")
+    OWNED = ("q", "R", "_q", "q10", "q9")
+    BORROWED = ("s", "S2")
+    TEMPS = ("t", "T1", "_t")
+
+    def __init__(self, rng, small=False):
+        self.r = rng
+        r = rng
+        self.p_int = r.sample(self.INTS, r.randint(1, 3))
+        self.p_bool = r.sample(self.BOOLS, r.randint(1, 2))
+        self.owned = r.sample(self.OWNED, r.choice([0, 1, 1, 2, 2, 3]))
+        self.borrowed = r.sample(self.BORROWED, r.choice([0, 0, 1, 1, 2]))
+        self.ret_q = [v for v in self.owned if r.random() < 0.7]
+        r.shuffle(self.ret_q)
+        self.ret_tys = [r.choice(["int", "int", "bool"]) for _ in range(r.choice([0, 1, 2, 2, 3]))]
+        self.budget = r.randint(2, 5) if small else r.randint(4, 14)
+        self.maxd = 2 if small else r.choice([2, 3, 3, 4])
+        self.nloop = 0
+
+    # env: {"i": set of defined ints, "b": set of defined bools, "lin": set of live consumable/other linear vars}
+    def int_expr(self, env, d=2):
+        r = self.r
+        vs = sorted(env["i"])
+        if d <= 0 or r.random() < 0.35:
+            return r.choice(vs) if vs and r.random() < 0.75 else str(r.randint(0, 9))
+        k = r.random()
+        if k < 0.7:
+            return f"({self.int_expr(env, d - 1)} {r.choice('+-*')} {self.int_expr(env, d - 1)})"
+        if k < 0.8:
+            return f"(-{self.int_expr(env, d - 1)})"
+        return f"({self.int_expr(env, d - 1)} if {self.bool_expr(env, d - 1)} else {self.int_expr(env, d - 1)})"
+
+    def bool_expr(self, env, d=2):
+        r = self.r
+        vs = sorted(env["b"])
+        if d <= 0 or r.random() < 0.25:
+            if vs and r.random() < 0.6:
+                return r.choice(vs)
+            return f"{self.int_expr(env, 0)} {r.choice(['<', '<=', '>', '>=', '==', '!='])} {self.int_expr(env, 0)}"
+        k = r.random()
+        if k < 0.45:
+            return f"{self.int_expr(env, d - 1)} {r.choice(['<', '<=', '>', '>=', '==', '!='])} {self.int_expr(env, d - 1)}"
+        if k < 0.8:
+            return f"({self.bool_expr(env, d - 1)} {r.choice(['and', 'or'])} {self.bool_expr(env, d - 1)})"
+        return f"(not {self.bool_expr(env, d - 1)})"
+
+    def qubits(self, env):
+        return sorted(set(self.ret_q) | set(self.borrowed) | env["lin"])
+
+    def simple(self, env, base):
+        """one non-control statement (list of lines); `base` = linear variables that must not be consumed here"""
+        r = self.r
+        qs = self.qubits(env)
+        consumable = sorted(env["lin"] - base)
+        k = self.r.random()
+        if k < 0.4:
+            v = r.choice(self.INTS)
+            line = f"{v} = {self.int_expr(env)}"
+            env["i"].add(v)
+            return [line]
+        if k < 0.55:
+            v = r.choice(self.BOOLS)
+            line = f"{v} = {self.bool_expr(env)}"
+            env["b"].add(v)
+            return [line]
+        if k < 0.65 and env["i"]:
+            return [f"{r.choice(sorted(env['i']))} {r.choice(['+=', '-=', '*='])} {self.int_expr(env, 1)}"]
+        if k < 0.8 and qs:
+            if len(qs) >= 2 and r.random() < 0.4:
+                a, b = r.sample(qs, 2)
+                return [f"cx({a}, {b})"]
+            return [f"{r.choice(['h', 'x'])}({r.choice(qs)})"]
+        if k < 0.9:
+            free = [t for t in self.TEMPS if t not in env["lin"]]
+            if free:
+                t = r.choice(free)
+                env["lin"].add(t)
+                return [f"{t} = qubit()"]
+        if consumable:
+            v = r.choice(consumable)
+            env["lin"].discard(v)
+            if r.random() < 0.6:
+                b = r.choice(self.BOOLS)
+                env["b"].add(b)
+                return [f"{b} = measure({v})"]
+            return [f"discard({v})"]
+        return ["pass"]
+
+    def ret_lines(self, env):
+        """consume what must not leak, then return"""
+        lines = [f"discard({v})" for v in sorted(env["lin"])]
+        vals = [self.int_expr(env, 1) if t == "int" else self.bool_expr(env, 1) for t in self.ret_tys] + list(self.ret_q)
+        lines.append("return " + ", ".join(vals) if vals else "return")
+        return lines
+
+    def block(self, d, env, loop_base, base):
+        """-> (lines, jumped). loop_base: linear set to restore before break/continue (None outside loops)"""
+        out = []
+        for _ in range(self.r.randint(1, 3)):
+            if self.budget <= 0:
+                break
+            self.budget -= 1
+            lines, jumped = self.stmt(d, env, loop_base, base)
+            out += lines
+            if jumped:
+                return out, True
+        return out or ["pass"], False
+
+    def stmt(self, d, env, loop_base, base):
+        r = self.r
+        k = r.random()
+        ctrl = d > 0
+        if ctrl and k < 0.3:
+            return self.gen_if(d, env, loop_base, base)
+        if ctrl and k < 0.42:
+            return self.gen_while(d, env, base), False
+        if ctrl and k < 0.47:
+            return self.gen_for(d, env, base), False
+        if loop_base is not None and k < 0.53:
+            pre = [f"discard({v})" for v in sorted(env["lin"] - loop_base)]
+            return pre + [r.choice(["break", "continue"])], True
+        if k < 0.57 and d < self.maxd:
+            return self.ret_lines(env), True
+        return self.simple(env, base), False
+
+    @staticmethod
+    def _copy(env):
+        return {k: set(v) for k, v in env.items()}
+
+    def gen_if(self, d, env, loop_base, base, depth=0):
+        r = self.r
+        cond = self.bool_expr(env)
+        e1, e2 = self._copy(env), self._copy(env)
+        b1, j1 = self.block(d - 1, e1, loop_base, base)
+        q = r.random()
+        kw = "if" if depth == 0 else "elif"
+        lines = [f"{kw} {cond}:"]
+        if q < 0.3:
+            b2, j2, has_else = [], False, False
+        elif q < 0.5 and depth < 2 and self.budget > 0:
+            self.budget -= 1
+            sub, j2 = self.gen_if(d, e2, loop_base, base, depth + 1)
+            b2, has_else = sub, "elif"
+        else:
+            b2, j2 = self.block(d - 1, e2, loop_base, base)
+            has_else = True
+        # make the linear live sets agree at the merge
+        if not j1 and not j2:
+            for v in sorted(e1["lin"] - e2["lin"]):
+                b1.append(f"discard({v})")
+                e1["lin"].discard(v)
+            extra = sorted(e2["lin"] - e1["lin"])
+            if extra:
+                if has_else == "elif" or not has_else:
+                    # cannot append to an elif chain / missing else: add an explicit else only when there is none
+                    if not has_else:
+                        b2 = [f"discard({v})" for v in extra]
+                        has_else = True
+                    else:
+                        return self._if_fallback(cond, b1, env, e1, kw)
+                else:
+                    b2 += [f"discard({v})" for v in extra]
+                for v in extra:
+                    e2["lin"].discard(v)
+        lines += ["    " + l for l in b1]
+        if has_else == "elif":
+            lines += b2
+        elif has_else:
+            lines += ["else:"] + ["    " + l for l in b2]
+        if j1 and j2 and has_else:
+            new = e1
+            jumped = True
+        else:
+            jumped = False
+            if j1:
+                new = e2
+            elif j2:
+                new = e1
+            else:
+                new = {"i": e1["i"] & e2["i"], "b": e1["b"] & e2["b"], "lin": e1["lin"] & e2["lin"]}
+        for k2 in env:
+            env[k2].clear()
+            env[k2].update(new[k2])
+        return lines, jumped
+
+    def _if_fallback(self, cond, b1, env, e1, kw):
+        """then-branch only, with an else that keeps the linear sets equal"""
+        extra = sorted(env["lin"] - e1["lin"])
+        lines = [f"{kw} {cond}:"] + ["    " + l for l in b1]
+        if extra:
+            lines += ["else:"] + [f"    discard({v})" for v in extra]
+        new = {"i": e1["i"] & env["i"], "b": e1["b"] & env["b"], "lin": e1["lin"] & env["lin"]}
+        for k2 in env:
+            env[k2].clear()
+            env[k2].update(new[k2])
+        return lines, False
+
+    def gen_while(self, d, env, base):
+        r = self.r
+        pre = []
+        if r.random() < 0.6:
+            w = f"w{self.nloop}"
+            pre = [f"{w} = {r.randint(0, 4)}"]
+            env["i"].add(w)
+            cond = f"{w} > 0" if r.random() < 0.7 else f"({w} > 0 and {self.bool_expr(env, 1)})"
+            head = [f"{w} -= 1"]
+        else:
+            cond = self.bool_expr(env) if r.random() < 0.85 else "True"
+            head = []
+        self.nloop += 1
+        benv = self._copy(env)
+        inner_base = set(env["lin"])
+        body, j = self.block(d - 1, benv, inner_base, base | inner_base)
+        if not j:
+            body += [f"discard({v})" for v in sorted(benv["lin"] - inner_base)]
+        self.nloop -= 1
+        if cond == "True" and not any("break" in l or "return" in l for l in body):
+            body.append(f"if {self.bool_expr(env, 1)}:")
+            body.append("    break")
+        return pre + [f"while {cond}:"] + ["    " + l for l in head + body]
+
+    def gen_for(self, d, env, base):
+        r = self.r
+        v = f"i{self.nloop}"
+        bound = r.choice([str(r.randint(0, 4)), self.int_expr(env, 1)])
+        self.nloop += 1
+        benv = self._copy(env)
+        benv["i"].add(v)
+        inner_base = set(env["lin"])
+        body, j = self.block(d - 1, benv, inner_base, base | inner_base)
+        if not j:
+            body += [f"discard({x})" for x in sorted(benv["lin"] - inner_base)]
+        self.nloop -= 1
+        return [f"for {v} in range({bound}):"] + ["    " + l for l in body]
+
+    def program(self) -> str:
+        r = self.r
+        params = [f"{v}: int" for v in self.p_int] + [f"{v}: bool" for v in self.p_bool]
+        params += [f"{v}: qubit @owned" for v in self.owned] + [f"{v}: qubit" for v in self.borrowed]
+        r.shuffle(params)
+        tys = self.ret_tys + ["qubit"] * len(self.ret_q)
+        ret = "None" if not tys else tys[0] if len(tys) == 1 else "tuple[" + ", ".join(tys) + "]"
+        env = {"i": set(self.p_int), "b": set(self.p_bool), "lin": set(self.owned) - set(self.ret_q)}
+        body, jumped = self.block(self.maxd, env, None, set())
+        if not jumped:
+            body += self.ret_lines(env)
+        return "@guppy\ndef main(" + ", ".join(params) + f") -> {ret}:\n" + "".join("    " + l + "\n" for l in body)
+
+
+def gen_wire_program(rng, small=False) -> str:
+    return WGen(rng, small).program()
+
+
+# ---------------------------------------------------------------- the wiring tie
+
+
+def _wire_kind(e):
+    if any(e["exits"]):
+        return "wire:exit-edge"
+    if len(e["succ"]) == 1:
+        return "wire:single-successor"
+    rc = e["rec"]
+    if "ambiguous" in rc:
+        return "wire:ambiguous"
+    return "wire:tuplesum" if rc["variants"] is not None else "wire:branch-same-places"
+
+
+def _sx_list(s: str):
+    """tiny S-expression reader -> nested lists of atoms"""
+    toks = re.findall(r"[()]|[^\s()]+", s)
+    pos = 0
+
+    def rd():
+        nonlocal pos
+        t = toks[pos]
+        pos += 1
+        if t == "(":
+            out = []
+            while toks[pos] != ")":
+                out.append(rd())
+            pos += 1
+            return out
+        return t
+
+    out = []
+    while pos < len(toks):
+        out.append(rd())
+    return out
+
+
+def _parse_wire_reply(rep: str):
+    """`ok (inputs P*) (deliver (P*) ...)` -> (inputs, [delivered...]) with P -> (name, bool)"""
+    try:
+        sx = _sx_list(rep)
+        if sx[0] != "ok" or sx[1][0] != "inputs" or sx[2][0] != "deliver":
+            return None
+        pl = lambda ps: [(p[1], p[2] == "1") for p in ps]  # noqa: E731
+        return pl(sx[1][1:]), [pl(row) for row in sx[2][1:]]
+    except Exception:  # noqa: BLE001
+        return None
+
+
+def load_wire_corpus():
+    out = []
+    p = os.path.join(vlib.VERIF, "corpus", "c03", "wiring.json")
+    if os.path.exists(p):
+        for c in json.load(open(p)):
+            out.append(("corpus:" + c.get("name", "?"), c["source"]))
+    return out
+
+
+def tie_wiring(ctx, n=None, use_model=True):
+    """T-obj tie for compile_bb / sort_vars / choose_vars_for_tuple_sum / insert_return_vars (second phase of C03)"""
+    rng = ctx.rng
+    t0 = time.time()
+    cases = load_wire_corpus()
+    rp = (ctx.replay_in or {}).get("replay") or {}
+    if "wiring_source" in rp:
+        cases.append(("replay", rp["wiring_source"]))
+    for k in range(n if n is not None else ctx.n(150, 2500)):
+        cases.append((f"gen{k}", gen_wire_program(rng, small=(k % 5 == 0))))
+    st = {"programs": 0, "lowered": 0, "rejected": {}, "crash": {}, "bbs": 0, "edges": 0, "exit_edges": 0, "tuplesum_bbs": 0,
+          "branching_bbs": 0, "bbs_with_nondroppable": 0, "ambiguous_bbs": 0, "skipped_bad_names": 0,
+          "rows_with_2plus_same_droppability": 0, "model_compared": 0}
+    lines, slots = [], []
+    for name, src in cases:
+        st["programs"] += 1
+        try:
+            res = wire_eval(src)
+        except Exception as e:  # noqa: BLE001
+            res = {"status": "crash", "detail": "harness:" + type(e).__name__ + ":" + str(e)[:200], "bbs": [], "fail": [], "source": src}
+        if res["status"] != "ok":
+            d = st["rejected" if res["status"] == "rejected" else "crash"]
+            d[str(res["detail"])[:80]] = d.get(str(res["detail"])[:80], 0) + 1
+            ctx.bump("wire:" + res["status"])
+            if res["status"] == "crash":  # an accepted program the real compiler cannot lower: a concrete failing input
+                ctx.violation(f"wire:{src}|crash", f"block wiring: the real compiler crashed ({res['detail']}) while lowering the "
+                              f"accepted program\n{src}", {"wiring_source": src, "where": "crash", "what": str(res["detail"])})
+            continue
+        st["lowered"] += 1
+        st["ambiguous_bbs"] += res["ambiguous"]
+        if res["bad_names"]:
+            st["skipped_bad_names"] += 1
+            continue
+        for where, what in res["fail"]:
+            ctx.violation(f"wire:{src}|{where}", f"block wiring: {what}; source:\n{src}",
+                          {"wiring_source": src, "where": where, "what": what})
+        for e in res["bbs"]:
+            st["bbs"] += 1
+            st["edges"] += len(e["succ"])
+            st["exit_edges"] += sum(e["exits"])
+            rows = [e["sig_in"], *e["sig_out"]]
+            nd = any(not d for row in rows for _, d in row)
+            st["bbs_with_nondroppable"] += nd
+            st["branching_bbs"] += len(e["succ"]) > 1
+            st["rows_with_2plus_same_droppability"] += any(sum(1 for _, d in row if d) >= 2 for row in rows)
+            kind = _wire_kind(e)
+            st["tuplesum_bbs"] += kind == "wire:tuplesum"
+            nt = max(len(r_) for r_ in rows) >= 2 and (len(e["succ"]) > 1 or any(e["exits"]))
+            ctx.count({"source": src, "bb": e["tag"] + str(e["idx"])}, nt, kind)
+            if "ambiguous" not in e["rec"]:
+                lines.append(e["request"])
+                slots.append((src, e))
+    if use_model and lines:
+        replies = ctx.driver(DRIVER, lines)
+        for (src, e), line, rep in zip(slots, lines, replies):
+            got = _parse_wire_reply(rep)
+            real = (e["rec"]["inputs"], e["delivered"])
+            st["model_compared"] += 1
+            if got is None or (got[0], got[1]) != real:
+                ctx.broke(f"correspondence Model/Wiring.lean vs cfg_compiler.compile_bb on block {e['idx']}: request={line[:500]} "
+                          f"model={rep[:500]} real inputs={real[0]} delivered={real[1]} source:\n{src}")
+    st["wall_s"] = round(time.time() - t0, 2)
+    ctx.extra["wiring"] = st
+    return st
+
+
+# ============================================================================ typed probes (T-obj): expressions in assignment targets
+
+PROBE_HEADER = (
+    "from guppylang import guppy\n"
+    "from guppylang.std.builtins import array, owned, result\n"
+    "@guppy\n"
+    "def idx() -> int:\n"
+    '    result("i", 1)\n'
+    "    return 1\n"
+)
+
+
+def count_calls(g, helper: str) -> int:
+    """number of hugr `Call` nodes in the lowered module whose callee is the FuncDefn/FuncDecl named `helper`"""
+    from hugr import ops
+    from hugr.hugr.node_port import InPort
+
+    n = 0
+    for node in g.hugr:
+        op = g.hugr[node].op
+        if isinstance(op, ops.Call):
+            for sp in g.hugr.linked_ports(InPort(node, op._function_port_offset())):
+                sop = g.hugr[sp.node].op
+                if isinstance(sop, (ops.FuncDefn, ops.FuncDecl)) and (sop.f_name == helper or sop.f_name.endswith("." + helper)):
+                    n += 1
+    return n
+
+
+def probe_eval(source: str, helper: str | None = None) -> dict:
+    """load + check (+ lower and count calls of `helper`) a typed probe with the real compiler"""
+    import feed
+
+    out = {"check": None, "error": None, "lowered": None, "calls": None}
+    try:
+        m = feed.load(source, PROBE_HEADER)
+    except Exception as e:  # noqa: BLE001
+        out["check"], out["error"] = "load-failed", type(e).__name__ + ": " + str(e)[:200]
+        return out
+    try:
+        kind, exc = feed.check_outcome(m.main)
+        out["check"] = kind
+        if kind != "ok":
+            out["error"] = feed.err_class(exc) + ": " + str(exc)[:200]
+            return out
+        try:
+            g = feed.lower(m.main)
+            out["lowered"] = True
+            if helper:
+                out["calls"] = count_calls(g, helper)
+        except Exception as e:  # noqa: BLE001
+            out["lowered"] = False
+            out["error"] = "lower: " + type(e).__name__ + ": " + str(e)[:200]
+    finally:
+        feed.unload(m)
+    return out
+
+
+def load_probe_corpus(prop: str, fname: str):
+    p = os.path.join(vlib.VERIF, "corpus", prop, fname)
+    return json.load(open(p)) if os.path.exists(p) else []
+
+
+def tie_probes(ctx):
+    """C03: typed programs with control-flow expressions inside assignment targets must be accepted and lower"""
+    n = 0
+    for c in load_probe_corpus("c03", "target_exprs.json"):
+        r = probe_eval(c["source"])
+        ok = r["check"] == "ok" and r["lowered"]
+        n += 1
+        ctx.count({"probe": c["name"], "source": c["source"]}, True, "probe:" + ("accepted" if ok else "failed"))
+        if not ok:
+            ctx.violation("probe:" + c["name"],
+                          f"typed probe `{c['name']}` (expected: accepted and lowered) fails with {r['check']} / {r['error']}; "
+                          f"source:\n{c['source']}", {"probe": c["name"], "probe_source": c["source"], "result": r})
+    ctx.extra["target_expr_probes"] = n
+
+
+def tie_call_probes(ctx):
+    """C05: number of Call nodes of the side-effecting helper in the lowered Hugr == number of calls Python evaluates"""
+    n = 0
+    for c in load_probe_corpus("c05", "call_counts.json"):
+        r = probe_eval(c["source"], c.get("helper", "idx"))
+        n += 1
+        good = r["check"] == "ok" and r["lowered"] and r["calls"] == c["calls"]
+        known = c.get("known") or {}
+        is_known = bool(known) and r["check"] == "ok" and r["lowered"] and r["calls"] == known.get("count")
+        ctx.count({"probe": c["name"], "source": c["source"]}, True,
+                  "probe:" + ("calls-as-python" if good else "known-d9" if is_known else "failed"))
+        if good:
+            continue
+        what = (f"typed probe `{c['name']}`: the lowered Hugr has {r['calls']} Call nodes of `{c.get('helper', 'idx')}`, Python "
+                f"evaluates {c['calls']} (check={r['check']} error={r['error']}); source:\n{c['source']}")
+        ctx.violation(known["key"] if is_known else "probe:" + c["name"], what,
+                      {"probe": c["name"], "probe_source": c["source"], "result": r, "expected_calls": c["calls"]})
+    ctx.extra["call_count_probes"] = n
+
+
+# ============================================================================ order edges (track_hugr_side_effects): T-obj phase of C05
+
+ORDER_PRELUDE = (
+    "from guppylang import guppy\n"
+    "from guppylang.std.builtins import *\n"
+    "from guppylang.std.quantum import qubit, h, x, cx, measure, discard, measure_array, discard_array\n"
+    "from guppylang.std.option import Option, some, nothing\n"
+)
+
+
+class OrderRecorder:
+    """Records what `core.track_hugr_side_effects` really does while the real compiler lowers a program.  Nothing in /repo
+    is touched: `Hugr.add_node`, `Hugr.add_order_link` (class attributes) and the module global
+    `core.track_hugr_side_effects` are wrapped for the duration of the `with` block and restored after.  core's context
+    manager saves whatever `Hugr.add_node` is at entry and wraps THAT, so the logger sees every insertion (before the
+    order links the real code adds for it).
+
+      hugrs[id(h)]  = {"hugr": h, "nodes": [(parent index | None, op, context index | None, real may_have_side_effect)]}
+                      in creation order (index in the list == Node.idx; checked)
+      contexts[k]   = {"fn": name of the definition being compiled, "links": [(id(h), src idx, dst idx)] in call order,
+                       "end": {id(h): number of nodes at context exit}, "children_ok": bool, "raised": exception | None}
+    """
+
+    def __init__(self):
+        self.hugrs, self.contexts, self.anomalies = {}, [], []
+        self.stray_links = self.parent_none_calls = self.synced = 0
+        self._stack, self._undo, self._last = [], [], None
+
+    def _patch(self, obj, name, new):
+        old = getattr(obj, name)
+        self._undo.append((obj, name, old))
+        setattr(obj, name, new)
+        return old
+
+    def _rec(self, hg):
+        h = self.hugrs.get(id(hg))
+        if h is None:
+            h = self.hugrs[id(hg)] = {"hugr": hg, "nodes": []}
+        self._last = id(hg)
+        return h
+
+    def _sync(self, h, upto):
+        """nodes that entered the Hugr without `add_node` (the module root): EFF = 0, outside every context"""
+        from hugr import Node
+
+        hg = h["hugr"]
+        while len(h["nodes"]) < upto:
+            d = hg[Node(len(h["nodes"]))]
+            h["nodes"].append((d.parent.idx if d.parent is not None else None, d.op, None, False))
+            self.synced += 1
+
+    def _children_ok(self, h):
+        """`hugr.children(p)` == the children of p in creation order, for every p (so [0]/[1] are the first two created)"""
+        from hugr import Node
+
+        by_parent = {}
+        for i, nd in enumerate(h["nodes"]):
+            if nd[0] is not None:
+                by_parent.setdefault(nd[0], []).append(i)
+        hg = h["hugr"]
+        return all([c.idx for c in hg.children(Node(p))] == ch for p, ch in by_parent.items())
+
+    def __enter__(self):
+        import guppylang_internals.compiler.core as core
+        from hugr import Hugr
+
+        rec = self
+        o_add, o_link, o_track = Hugr.add_node, Hugr.add_order_link, core.track_hugr_side_effects
+
+        def add_node(self, op, parent=None, num_outs=None, metadata=None):
+            h = rec._rec(self)
+            if not h["nodes"]:
+                rec._sync(h, len(self._nodes))
+            node = o_add(self, op, parent, num_outs, metadata)
+            rec._sync(h, node.idx)
+            if node.idx != len(h["nodes"]) or getattr(self, "_free_nodes", None):
+                rec.anomalies.append(f"node index {node.idx} is not the creation index {len(h['nodes'])}")
+            par = self[node].parent
+            if parent is None:
+                rec.parent_none_calls += 1
+            try:
+                eff = bool(core.may_have_side_effect(op))
+            except Exception as e:  # noqa: BLE001
+                eff = False
+                rec.anomalies.append("may_have_side_effect raised " + type(e).__name__)
+            h["nodes"].append((par.idx if par is not None else None, op, rec._stack[-1]["k"] if rec._stack else None, eff))
+            return node
+
+        def add_order_link(self, src, dst):
+            if rec._stack:
+                rec._rec(self)
+                rec._stack[-1]["links"].append((id(self), src.to_node().idx, dst.to_node().idx))
+            else:
+                rec.stray_links += 1
+            return o_link(self, src, dst)
+
+        class _Track:
+            def __init__(self, fn):
+                self.c = {"k": None, "fn": fn, "links": [], "end": {}, "children_ok": True, "raised": None}
+                self.cm = None
+
+            def __enter__(self):
+                self.c["k"] = len(rec.contexts) + len(rec._stack)
+                if rec._stack:
+                    rec.anomalies.append("nested track_hugr_side_effects contexts")
+                rec._stack.append(self.c)
+                self.cm = o_track()
+                return self.cm.__enter__()
+
+            def __exit__(self, et, ev, tb):
+                try:
+                    return self.cm.__exit__(et, ev, tb)
+                except BaseException as e:
+                    self.c["raised"] = type(e).__name__ + ": " + str(e)[:200]
+                    raise
+                finally:
+                    if et is not None and self.c["raised"] is None:
+                        self.c["raised"] = et.__name__ + ": " + str(ev)[:200]
+                    rec._stack.pop()
+                    for hid, h in rec.hugrs.items():
+                        self.c["end"][hid] = len(h["nodes"])
+                        if not rec._children_ok(h):
+                            self.c["children_ok"] = False
+                    rec.contexts.append(self.c)
+
+        def track():
+            fn = None
+            try:
+                d = sys._getframe(1).f_locals.get("next_def")
+                fn = getattr(d, "name", None)
+            except Exception:  # noqa: BLE001
+                pass
+            return _Track(fn)
+
+        self._patch(Hugr, "add_node", add_node)
+        self._patch(Hugr, "add_order_link", add_order_link)
+        self._patch(core, "track_hugr_side_effects", track)
+        return self
+
+    def __exit__(self, *exc):
+        for obj, name, old in reversed(self._undo):
+            setattr(obj, name, old)
+        self._undo = []
+        return False
+
+
+def order_lower(source: str):
+    """check + lower a typed program with the real compiler under an OrderRecorder.
+    -> ("ok", recorder) | ("rejected", error class) | ("crash", what)"""
+    import feed
+
+    try:
+        m = feed.load(source, ORDER_PRELUDE)
+    except Exception as e:  # noqa: BLE001
+        return "rejected", "load:" + type(e).__name__
+    try:
+        if not hasattr(m, "main"):
+            return "rejected", "load:no-main"
+        kind, exc = feed.check_outcome(m.main)
+        if kind != "ok":
+            return ("rejected" if kind == "user" else "crash"), feed.err_class(exc)
+        with OrderRecorder() as rec:
+            try:
+                feed.lower(m.main)
+            except Exception as e:  # noqa: BLE001
+                return "crash", "lower:" + type(e).__name__ + ":" + str(e)[:200]
+        return "ok", rec
+    finally:
+        feed.unload(m)
+
+
+def _order_kind(op) -> str:
+    from hugr import ops
+
+    return "f" if isinstance(op, ops.FuncDefn) else "c" if isinstance(op, ops.Conditional) else "g" if isinstance(op, ops.CFG) else "o"
+
+
+def _order_opname(op) -> str:
+    """qualified name of an extension op (independent of core.may_have_side_effect), else the op class name"""
+    from hugr import ops
+
+    if isinstance(op, ops.ExtOp):
+        d = op.op_def()
+        ext = getattr(d, "_extension", None)
+        return f"{ext.name}.{d.name}" if ext is not None else d.name
+    if isinstance(op, ops.Custom):
+        return f"{op.extension}.{op.op_name}" if op.extension else op.op_name
+    return type(op).__name__
+
+
+def order_oracle(nodes, k, links, effect_names):
+    """The literal reading of `order edges keep side effects in program order`, on recorded real data only.
+
+    nodes: [(parent | None, op, context | None, _)] in creation order; k: this context; links: [(src, dst)] added in this
+    context.  A node has a side effect iff it is a Call / CallIndirect or an extension op whose qualified name is in
+    `effect_names` (the real EXTENSION_OPS_WITH_SIDE_EFFECTS).  For every region parent p (not Conditional / CFG) with a
+    side-effecting descendant created in this context (not looking through a FuncDefn below p) the order edges among p's
+    children must be exactly the path Input -> n1 -> ... -> nk -> Output, n_i = the children of p that are / contain such
+    a node, by creation time of their first side-effecting descendant.  -> (failures, facts)"""
+    from hugr import ops
+
+    par = [nd[0] for nd in nodes]
+    children = {}
+    for i, p in enumerate(par):
+        if p is not None:
+            children.setdefault(p, []).append(i)
+    member = {}  # region parent -> {child: creation index of its first side-effecting descendant (itself for a leaf)}
+    fails, effs = [], []
+    for i, nd in enumerate(nodes):
+        if nd[2] != k:
+            continue
+        op = nd[1]
+        if not (isinstance(op, (ops.Call, ops.CallIndirect)) or (isinstance(op, (ops.ExtOp, ops.Custom)) and _order_opname(op) in effect_names)):
+            continue
+        effs.append(i)
+        cur = i
+        while True:
+            p = par[cur]
+            if p is None:
+                fails.append(f"side-effecting node {i} ({_order_opname(op)}) is not inside a function definition")
+                break
+            member.setdefault(p, {}).setdefault(cur, i)
+            if isinstance(nodes[p][1], ops.FuncDefn):
+                break
+            cur = p
+    got = {}
+    for a, b in links:
+        if not (0 <= a < len(nodes) and 0 <= b < len(nodes)) or par[a] is None or par[a] != par[b]:
+            fails.append(f"order edge {a} -> {b} connects nodes that are not siblings")
+            continue
+        got.setdefault(par[a], []).append((a, b))
+    regions = linked_containers = 0
+    for p in sorted(set(member) | set(got)):
+        mem = member.get(p, {})
+        if not mem or isinstance(nodes[p][1], (ops.Conditional, ops.CFG)):
+            want = []
+        else:
+            regions += 1
+            ch = children[p]
+            if len(ch) < 2 or not isinstance(nodes[ch[0]][1], ops.Input) or not isinstance(nodes[ch[1]][1], ops.Output):
+                fails.append(f"region {p} ({_order_opname(nodes[p][1])}): its first two children are not Input, Output")
+                continue
+            seq = [ch[0], *sorted(mem, key=lambda c: mem[c]), ch[1]]
+            want = list(zip(seq, seq[1:]))
+            linked_containers += sum(1 for c in mem if c in children)
+        have = got.get(p, [])
+        if sorted(have) != sorted(want):
+            fails.append(f"region {p} ({_order_opname(nodes[p][1])}): order edges {sorted(have)}, expected exactly the path {want} "
+                         f"(side-effecting children by first effect: {sorted(mem.items(), key=lambda kv: kv[1])})")
+    from hugr import ops as _o
+
+    def has_eff_inside(cls):
+        return sum(1 for p, mem in member.items() if mem and isinstance(nodes[p][1], cls))
+
+    facts = {"effects": len(effs), "regions": regions, "linked_containers": linked_containers,
+             "cond_with_effect": has_eff_inside(_o.Conditional), "tailloop_with_effect": has_eff_inside(_o.TailLoop),
+             "cfg_with_effect": has_eff_inside(_o.CFG), "dfblocks_with_effect": has_eff_inside(_o.DataflowBlock),
+             "funcdefn_direct": sum(1 for p, mem in member.items() if isinstance(nodes[p][1], _o.FuncDefn) and any(c not in children for c in mem))}
+    return fails, facts
+
+
+def _order_shape(f) -> str:
+    if not f["effects"]:
+        return "order:no-effect"
+    if f["tailloop_with_effect"]:
+        return "order:tailloop-with-effect"
+    if f["cond_with_effect"]:
+        return "order:conditional-with-effect"
+    if f["funcdefn_direct"]:
+        return "order:effects-directly-in-funcdefn"
+    return "order:several-blocks" if f["dfblocks_with_effect"] >= 2 else "order:one-block"
+
+
+def order_eval(source: str) -> dict:
+    """real side + oracle + model request for every track_hugr_side_effects context of one typed program"""
+    import guppylang_internals.compiler.core as core
+
+    status, rec = order_lower(source)
+    res = {"source": source, "status": status, "detail": None if status == "ok" else rec, "contexts": [], "anomalies": [],
+           "nodes": 0, "stray_links": 0, "parent_none_calls": 0}
+    if status != "ok":
+        return res
+    effect_names = set(core.EXTENSION_OPS_WITH_SIDE_EFFECTS)
+    res["anomalies"] = list(rec.anomalies)
+    res["nodes"] = sum(len(h["nodes"]) for h in rec.hugrs.values())
+    res["stray_links"], res["parent_none_calls"] = rec.stray_links, rec.parent_none_calls
+    for c in rec.contexts:
+        k = c["k"]
+        hids = {hid for hid, h in rec.hugrs.items() if any(nd[2] == k for nd in h["nodes"])} | {l[0] for l in c["links"]}
+        if len(hids) > 1:
+            res["anomalies"].append(f"context {k} ({c['fn']}) touches {len(hids)} Hugr objects")
+            continue
+        hid = next(iter(hids)) if hids else rec._last
+        if hid is None:
+            continue
+        nodes = rec.hugrs[hid]["nodes"][:c["end"].get(hid, 0)]
+        links = [(a, b) for _, a, b in c["links"]]
+        if not c["children_ok"]:
+            res["anomalies"].append(f"context {k} ({c['fn']}): hugr.children(p) is not in creation order")
+        fails, facts = order_oracle(nodes, k, links, effect_names)
+        if c["raised"]:
+            fails.append("the side-effect tracking raised " + c["raised"])
+        req = "(order " + " ".join(
+            f"(N {'-' if nd[0] is None else nd[0]} {_order_kind(nd[1])} {int(nd[2] == k and nd[3])})" for nd in nodes) + ")"
+        res["contexts"].append({"k": k, "fn": c["fn"] or f"ctx{k}", "request": req, "links": links, "fails": fails, "facts": facts,
+                                "created": sum(1 for nd in nodes if nd[2] == k), "real_eff": sum(1 for nd in nodes if nd[2] == k and nd[3])})
+    return res
+
+
+# ---------------------------------------------------------------- typed generator: several functions, many effects
+
+
+class OGen(WGen):
+    """WGen (typed control flow, linear qubits) + side effects everywhere: calls of other generated functions (also in
+    conditions and arguments, recursive, through a higher-order helper), result(...), panic / exit, qubit allocation and
+    measurement, and constructs whose lowering hides an effect in a hugr Conditional / TailLoop (array indexing and
+    assignment, Option.unwrap, int power, array comprehensions of qubits)"""
+
+    def __init__(self, rng, name, small=False, helper=False):
+        super().__init__(rng, small)
+        r = rng
+        self.name, self.helpers, self.app, self.ntag = name, [], False, 0
+        if helper:
+            self.owned, self.borrowed, self.ret_q = [], [], []
+            self.ret_tys = [r.choice(["int", "int", "bool"])] if r.random() < 0.8 else []
+            self.budget = r.randint(1, 3) if small else r.randint(2, 6)
+            self.maxd = r.choice([1, 2, 2, 3])
+        self.has_arr = r.random() < 0.5
+        self.params = [(v, "int") for v in self.p_int] + [(v, "bool") for v in self.p_bool]
+        self.params += [(v, "qubit @owned") for v in self.owned] + [(v, "qubit") for v in self.borrowed]
+        r.shuffle(self.params)
+        self.ret = self.ret_tys[0] if helper and self.ret_tys else None
+
+    def tag(self):
+        self.ntag += 1
+        return f"{self.name}{self.ntag}"
+
+    def call(self, env, h, d):
+        args = [self.int_expr(env, d - 1) if t == "int" else self.bool_expr(env, d - 1) for _, t in h.params]
+        return f"{h.name}({', '.join(args)})"
+
+    def int_expr(self, env, d=2):
+        r = self.r
+        if d > 0:
+            k = r.random()
+            hs = [h for h in self.helpers if h.ret == "int"]
+            if k < 0.16 and hs:
+                return self.call(env, r.choice(hs), d)
+            if k < 0.24 and self.has_arr:
+                return f"xs[{self.int_expr(env, d - 1)}]"
+            if k < 0.29:
+                return f"some({self.int_expr(env, d - 1)}).unwrap()"
+            if k < 0.31:
+                return f"({self.int_expr(env, d - 1)} ** 2)"
+            if k < 0.35 and self.app:
+                h1 = [h for h in hs if [t for _, t in h.params] == ["int"]]
+                if h1:
+                    return f"app({r.choice(h1).name}, {self.int_expr(env, d - 1)})"
+        return super().int_expr(env, d)
+
+    def bool_expr(self, env, d=2):
+        r = self.r
+        hs = [h for h in self.helpers if h.ret == "bool"]
+        if d > 0 and hs and r.random() < 0.14:
+            return self.call(env, r.choice(hs), d)
+        return super().bool_expr(env, d)
+
+    def simple(self, env, base):
+        r = self.r
+        k = r.random()
+        if k < 0.16:
+            v = self.int_expr(env, 1) if r.random() < 0.7 else self.bool_expr(env, 1)
+            return [f'result("{self.tag()}", {v})']
+        if k < 0.28 and self.helpers:
+            h = r.choice(self.helpers)
+            call = self.call(env, h, 2)
+            if h.ret is None or r.random() < 0.4:
+                return [call]
+            v = r.choice(self.INTS if h.ret == "int" else self.BOOLS)
+            env["i" if h.ret == "int" else "b"].add(v)
+            return [f"{v} = {call}"]
+        if k < 0.34:
+            what = f'panic("{self.tag()}")' if r.random() < 0.75 else f'exit("{self.tag()}", 1)'
+            return [f"if {self.bool_expr(env, 1)}:", "    " + what]
+        if k < 0.36:
+            return [f'panic("{self.tag()}")']
+        if k < 0.42 and self.has_arr:
+            return [f"xs[{self.int_expr(env, 1)}] {r.choice(['=', '+='])} {self.int_expr(env, 1)}"]
+        if k < 0.45:
+            n = self.tag()
+            mid = [f"h(qs{n}[{self.int_expr(env, 0)}])"] if r.random() < 0.5 else []
+            if r.random() < 0.5:
+                return [f"qs{n} = array(qubit() for _ in range(2))", *mid, f"discard_array(qs{n})"]
+            return [f"qs{n} = array(qubit() for _ in range(2))", *mid, f'result("{n}", measure_array(qs{n}))']
+        return super().simple(env, base)
+
+    def program(self) -> str:
+        tys = self.ret_tys + ["qubit"] * len(self.ret_q)
+        ret = "None" if not tys else tys[0] if len(tys) == 1 else "tuple[" + ", ".join(tys) + "]"
+        env = {"i": set(self.p_int), "b": set(self.p_bool), "lin": set(self.owned) - set(self.ret_q)}
+        body, jumped = self.block(self.maxd, env, None, set())
+        if not jumped:
+            body += self.ret_lines(env)
+        if self.has_arr:
+            body.insert(0, "xs = array(0, 1, 2)")
+        return (f"@guppy\ndef {self.name}(" + ", ".join(f"{v}: {t}" for v, t in self.params) + f") -> {ret}:\n"
+                + "".join("    " + l + "\n" for l in body))
+
+
+class _CtGen:
+    """a comptime helper: its body is traced, the effects land directly in the FuncDefn's dataflow region (no CFG)"""
+
+    def __init__(self, rng, name):
+        self.r, self.name, self.params, self.ret, self.helpers = rng, name, [("a", "int")], "int", []
+
+    def program(self) -> str:
+        r = self.r
+        lines = []
+        for j in range(r.randint(1, 5)):
+            k = r.random()
+            hs = [h for h in self.helpers if h is not self and not isinstance(h, _CtGen)]
+            if k < 0.35:
+                lines.append(f'result("{self.name}{j}", a + {j})')
+            elif k < 0.6 and hs:
+                h = r.choice(hs)
+                lines.append(h.name + "(" + ", ".join(str(r.randint(0, 5)) if t == "int" else r.choice(["True", "False"]) for _, t in h.params) + ")")
+            elif k < 0.8:
+                lines += [f"q{j} = qubit()", f"h(q{j})", f'result("{self.name}m{j}", measure(q{j}))' if r.random() < 0.5 else f"discard(q{j})"]
+            else:
+                lines.append(f'result("{self.name}b{j}", True)')
+        return f"@guppy.comptime\ndef {self.name}(a: int) -> int:\n" + "".join("    " + l + "\n" for l in lines) + "    return a + 1\n"
+
+
+ORDER_APP = "@guppy\ndef app(f: Callable[[int], int], a: int) -> int:\n    return f(a)\n"
+
+
+def gen_order_program(rng, small=False) -> str:
+    """1-4 helper functions (int / bool parameters; any of them may call any other, itself included) + `main`"""
+    r = rng
+    nh = r.choice([1, 1, 2, 2, 3]) if small else r.choice([1, 2, 2, 3, 3, 4])
+    fns = []
+    for j in range(nh):
+        if r.random() < 0.15:
+            fns.append(_CtGen(r, f"f{j}"))
+        else:
+            fns.append(OGen(r, f"f{j}", small=small, helper=True))
+    main = OGen(r, "main", small=small)
+    app = r.random() < 0.3 and any(isinstance(h, OGen) and h.ret == "int" and [t for _, t in h.params] == ["int"] for h in fns)
+    for g in [*fns, main]:
+        g.helpers = fns
+        g.app = app
+    return (ORDER_APP if app else "") + "".join(g.program() for g in [*fns, main])
+
+
+# ---------------------------------------------------------------- the order-edge tie
+
+
+def load_order_corpus():
+    return [("corpus:" + c.get("name", "?"), c["source"]) for c in load_probe_corpus("c05", "order_edges.json")]
+
+
+def _parse_order_reply(rep: str):
+    """`ok DUP (edges (a b) ...)` -> (dup, [(a, b)])"""
+    try:
+        sx = _sx_list(rep)
+        if sx[0] != "ok" or sx[2][0] != "edges":
+            return None
+        return int(sx[1]), [(int(a), int(b)) for a, b in sx[2][1:]]
+    except Exception:  # noqa: BLE001
+        return None
+
+
+def tie_order(ctx, n=None, use_model=True):
+    """C05, T-obj: core.track_hugr_side_effects on really lowered programs vs Model/OrderEdges.lean (driver C03, `order`)
+    and vs the literal reading of the property (order_oracle); one case per track_hugr_side_effects context"""
+    rng = ctx.rng
+    t0 = time.time()
+    cases = load_order_corpus()
+    rp = (ctx.replay_in or {}).get("replay") or {}
+    if "order_source" in rp:
+        cases.append(("replay", rp["order_source"]))
+    for k in range(n if n is not None else ctx.n(90, 1400)):
+        cases.append((f"gen{k}", gen_order_program(rng, small=(k % 4 == 0))))
+    st = {"programs": 0, "lowered": 0, "rejected": {}, "crash": {}, "contexts": 0, "empty_contexts": 0, "contexts_with_effects": 0, "nodes": 0,
+          "effect_nodes": 0, "order_edges": 0, "regions_checked": 0, "containers_linked": 0, "conditionals_with_effect": 0,
+          "contexts_with_effect_in_conditional": 0, "tailloops_with_effect": 0, "contexts_effects_directly_in_funcdefn": 0,
+          "max_request_nodes": 0, "stray_links": 0, "add_node_parent_none": 0, "anomalies": 0, "oracle_failures": 0,
+          "model_compared": 0, "model_dup": 0}
+    lines, slots = [], []
+    for name, src in cases:
+        st["programs"] += 1
+        try:
+            res = order_eval(src)
+        except Exception as e:  # noqa: BLE001
+            ctx.broke("harness: order_eval raised " + type(e).__name__ + ": " + str(e)[:300] + "\n" + src)
+            continue
+        if res["status"] != "ok":
+            d = st["rejected" if res["status"] == "rejected" else "crash"]
+            d[str(res["detail"])[:80]] = d.get(str(res["detail"])[:80], 0) + 1
+            ctx.bump("order:" + res["status"])
+            if res["status"] == "crash":
+                ctx.violation(f"order:{src}|crash", f"order edges: the real compiler crashed ({res['detail']}) while lowering the "
+                              f"accepted program\n{src}", {"order_source": src, "fn": None, "what": str(res["detail"])})
+            elif name.startswith(("corpus:", "replay")):
+                ctx.broke(f"harness: order-edge corpus program `{name}` is rejected ({res['detail']})")
+            continue
+        st["lowered"] += 1
+        st["nodes"] += res["nodes"]
+        st["stray_links"] += res["stray_links"]
+        st["add_node_parent_none"] += res["parent_none_calls"]
+        for a in res["anomalies"]:
+            st["anomalies"] += 1
+            ctx.broke(f"correspondence Model/OrderEdges.lean vs core.track_hugr_side_effects: outside the protocol: {a}; source:\n{src}")
+        for c in res["contexts"]:
+            f = c["facts"]
+            st["contexts"] += 1
+            if not c["created"] and not c["links"] and not c["fails"]:
+                # compile_inner of a definition without a body of its own (types, declarations, custom functions): no node was
+                # inserted and no link added in this context; nothing to compare
+                st["empty_contexts"] += 1
+                ctx.bump("order:empty-context")
+                continue
+            st["contexts_with_effects"] += f["effects"] > 0
+            st["effect_nodes"] += f["effects"]
+            st["order_edges"] += len(c["links"])
+            st["regions_checked"] += f["regions"]
+            st["containers_linked"] += f["linked_containers"]
+            st["conditionals_with_effect"] += f["cond_with_effect"]
+            st["contexts_with_effect_in_conditional"] += f["cond_with_effect"] > 0
+            st["tailloops_with_effect"] += f["tailloop_with_effect"]
+            st["contexts_effects_directly_in_funcdefn"] += f["funcdefn_direct"] > 0
+            st["max_request_nodes"] = max(st["max_request_nodes"], c["request"].count("(N "))
+            ctx.count({"source": src, "fn": c["fn"], "k": c["k"]}, f["effects"] >= 2 and f["linked_containers"] >= 1, _order_shape(f))
+            if c["fails"]:
+                st["oracle_failures"] += 1
+                what = "; ".join(c["fails"][:4])
+                ctx.violation("order:" + src + "|fn" + str(c["fn"]),
+                              f"order edges of `{c['fn']}` do not keep its side effects in program order: {what}; source:\n{src}",
+                              {"order_source": src, "fn": c["fn"], "context": c["k"], "what": c["fails"][:8], "order_links": c["links"]})
+            lines.append(c["request"])
+            slots.append((src, c))
+    if use_model and lines:
+        replies = ctx.driver(DRIVER, lines)
+        for (src, c), line, rep in zip(slots, lines, replies):
+            got = _parse_order_reply(rep)
+            st["model_compared"] += 1
+            if got is not None and got[0]:
+                st["model_dup"] += 1
+            if got is None or got[0] != 0 or got[1] != c["links"]:
+                ctx.broke(f"correspondence Model/OrderEdges.lean vs core.track_hugr_side_effects on `{c['fn']}` (context {c['k']}): "
+                          f"model={rep[:600]} real edges={c['links']} request={line[:600]} source:\n{src}")
+    st["wall_s"] = round(time.time() - t0, 2)
+    ctx.extra["order_edges"] = st
+    return st
 
 
 # ============================================================================ search + shrink
